@@ -99,6 +99,11 @@ def scope_entry(ctx, rule):
         l, r = value.left, value.right
         base_ok = isinstance(l, ast.Call) and prog.resolve_call(f, l) == 'config.current_scope'
         ext_ok = u(r) == "%s.split('/')" % p
+      # ... or the display [*current_scope(), *p.split('/')]
+      if isinstance(value, ast.List) and len(value.elts) == 2 and all(isinstance(e, ast.Starred) for e in value.elts) and not muts:
+        l, r = value.elts[0].value, value.elts[1].value
+        base_ok = isinstance(l, ast.Call) and prog.resolve_call(f, l) == 'config.current_scope'
+        ext_ok = u(r) == "%s.split('/')" % p
       ctx.check(base_ok and ext_ok, rule, con,
                 "non-empty str: active scope copy extended by split('/') (append)",
                 "non-empty str: pushed scope is `%s`%s -- a name must append its '/'-components to a copy of the active scope"
@@ -122,13 +127,24 @@ def scope_entry(ctx, rule):
     if k not in seen_kinds:
       ctx.fail(rule, con, 'no path implements the %s form of scope entry' % k, f.loc(), instance=k)
 
-  # validity raise after the push
-  ok = False
-  for n in walk_local(f.node):
-    if isinstance(n, ast.If) and n.body and isinstance(n.body[-1], ast.Raise):
-      txt = u(n.test)
-      if 'valid' in txt and 'all(' in txt:
-        ok = True
+  # the body (the yield) is reached only for a valid value whose every component matches the scope-name regex
+  from ..lib import facts_imply, all_match_form
+  pushed = {c.args[0].id for pn in pushes for c in calls_of_node(pn) if prog.resolve_call(f, c) == ENTER and c.args and isinstance(c.args[0], ast.Name)}
+
+  def atom(e):
+    if isinstance(e, ast.Name) and e.id.startswith('valid'):
+      return 'valid'
+    am = all_match_form(e)
+    if am is not None:
+      fn_, xs, positive = am
+      if fn_.endswith('MODULE_RE.match') and u(xs) in pushed:
+        return 'allmatch' if positive else ('allmatch', True)
+    return None
+  ys = [n for n in g.live_nodes() if n.ast is not None and n.kind == 'stmt' and any(isinstance(x, ast.Yield) for x in ast.walk(n.ast))]
+  ok = bool(ys)
+  for y in ys:
+    if facts_imply(facts[y.id], [('valid value', 'valid'), ('well-formed scope names', 'allmatch')], atom):
+      ok = False
   # scopes_are_valid must be computed from MODULE_RE over the new scope
   ctx.check(ok, rule, con, 'invalid values and malformed scope names raise (guard over validity flag and component regex)',
             'the guard rejecting invalid scope values / names is gone', f.loc(), instance='reject')
